@@ -253,7 +253,7 @@ def finish(pid, a, mod, results, inconclusive, t0, env, s7res=None):
         'coverage': {
             'evaluations': evaluations,
             'distinct_nontrivial': len(classes),
-            'rule': getattr(mod, 'RULE', ''),
+            'rule': getattr(mod, 'RULE', '') + ' || object histories: ' + __import__('vmon.histories', fromlist=['HIST']).HIST.get(pid, ''),
             'samples': pick_samples(samples),
             'cases': cases,
             'cases_reexecuted_under_S1_invariants': sancases,
